@@ -72,6 +72,12 @@ pub fn program_pool(rng: &mut Rng, n: usize) -> Vec<(String, Option<String>, Vec
     ));
     // stdlib call
     v.push(("use.std::math::u64\nbegin exec.u64::wrapping_mul exec.u64::div end".replace("exec.u64::div", "push.0.7 exec.u64::div"), None, vec![1, 2, 3, 4, 5, 6], vec![]));
+    // power-of-two boundary shapes of every trace component (memory-last / kernel-last chiplets,
+    // range table, cycles): the shapes where the trace-length rule puts constrained rows next to
+    // the random row
+    for (_, k, src, st) in crate::c03::boundary_programs(if n > 20 { 6 } else { 2 }) {
+        v.push((src, k, st, vec![]));
+    }
     for i in 0..n {
         let d = rng.below(3) as u32;
         let l = 1 + rng.below(4) as usize;
